@@ -5,6 +5,7 @@ import (
 	"math/rand"
 	"os"
 	"sort"
+	"strings"
 	"sync"
 	"sync/atomic"
 	"time"
@@ -269,6 +270,11 @@ func enumRecord(t enumType, cs []enumConst, r *rand.Rand, thorough bool) M {
 		" " + first, "٣", "1 2"}
 	for k := 0; k < 3; k++ {
 		junks = append(junks, string(rbytes(r, 1+r.Intn(12))))
+	}
+	// long lists: whatever stands behind the 64th (the 200th) separator is read like the rest
+	for _, n := range []int{63, 64, 65, 200} {
+		long := strings.Repeat(first+" | ", n)
+		junks = append(junks, long+"NOT_A_LABEL_zq", long, long+"0x10", long+first+" ")
 	}
 	var junk []M
 	for _, j := range junks {
